@@ -382,6 +382,14 @@ def _value_fields(k, t, fields):
     return out
 
 
+def _unresolved_obj(ctx):
+    """Predicate on terms: the construction of an object of a repository class (its fields are not followed), a function value
+    that is applied, the result of a nested loop."""
+    def p(x):
+        return (x[0] == "call" and x[1] in ctx.prog.classes and x[1] not in ("Solver", "StochasticGame")) or x[0] in ("apply", "res", "compr")
+    return p
+
+
 def r4_restriction_argument(ctx, chk, rule="C02.4"):
     f = ctx.func(SOLVE)
     sx = SymX(ctx, f, "StochasticGame", inline_depth=0).run()
@@ -395,6 +403,9 @@ def r4_restriction_argument(ctx, chk, rule="C02.4"):
     ok_src = arg is not None and arg[0] == "idx" and arg[2] == C(0) and arg[1][0] == "mcall" and arg[1][2] == "solve_reachability"
     if ok_src and arg == reported:
         chk.ok(rule, f.where(), "prune_reachability receives solve_reachability(...)[0], the same object solve() reports as reachability strategies")
+    elif arg is None or reported is None or mentions(arg, _unresolved_obj(ctx)) or mentions(reported, _unresolved_obj(ctx)):
+        chk.undecided(rule, f.where(), "prune_reachability receives `%s`, solve() reports `%s`: a value read off an object that is not resolved" % (
+            show(arg)[:80] if arg is not None else None, show(reported)[:80] if reported is not None else None))
     else:
         chk.violation(rule, f.where(), "Player 1 is restricted by `%s`, which is not the strategy list solve_reachability returned / solve() reports (`%s`)" % (
             show(arg), show(reported)), expected="the reported reachability strategies", found=show(arg), construct="solve() restriction argument")
